@@ -304,15 +304,29 @@ NORMALISE = [("try_borrow_mut", "try_borrow*"), ("try_borrow", "try_borrow*"), (
              ("from_raw_parts_mut", "from_raw_parts*"), ("from_raw_parts", "from_raw_parts*"), ("cast_mut", "cast*"), ("get_mut", "get*")]
 
 
+SEMANTIC_CALLS = set(["get", "get*", "contains_key", "branch", "from_residual", "try_borrow*", "borrow*", "map", "unwrap_or_else", "panic_fmt",
+                      "assert_same_type_id", "from_type_id", "try_fetch_internal", "try_fetch*", "index", "index_mut", "downcast_ref_unchecked",
+                      "downcast_mut_unchecked", "deref", "deref_mut", "<fn pointer>", "from_raw_parts*", "clone"])
+
+
 def skeleton(body, recursive_facts=None):
+    """Sequence of the *semantic* calls of a body (lookups, borrows, guard mapping, panics,
+    vtable re-attachment) with shared/exclusive names unified.  Calls outside that vocabulary
+    are ignored, so that a behaviour-preserving extra call does not break a sibling comparison."""
     out = []
     for bb, t in body.normal_calls():
         c = Callee(t["func"])
-        s_ = c.name or "?"
+        s_ = "<fn pointer>" if c.indirect else (c.name or "?")
         for a, b_ in NORMALISE:
             if s_ == a:
                 s_ = b_
                 break
+        if s_ == "new" and c.self_head == A.RESID:
+            s_ = "ResourceId::new"
+        elif s_ not in SEMANTIC_CALLS:
+            continue
+        if s_ in ("deref", "deref_mut", "clone") and c.local is False and "AtomicRef" not in c.inst_path:
+            continue
         out.append(s_)
     return out
 
